@@ -56,17 +56,20 @@ func vpH_C03_Relationship()          { vpC03Cell(vpTypeIndex("Relationship")) }
 func vpH_C03_Tombstone()             { vpC03Cell(vpTypeIndex("Tombstone")) }
 func vpH_C03_Link()                  { vpC03Cell(vpTypeIndex("Link")) }
 
-// lists with a repeated member come back member for member (the gob form promises nothing but the
+// lists with a repeated member, and natural-language lists with a repeated tag, come back member for member (the gob form promises nothing but the
 // unset/empty normal form)
 func vpH_C03_repeated_members() {
 	ti := vpChoice(len(vpTypeNames))
 	fields := vpFieldsOf(ti)
 	f := vpChoice(len(fields))
-	if fields[f].Kind != "Items" {
+	if fields[f].Kind != "Items" && fields[f].Kind != "NLV" {
 		vpReach("end")
 		return
 	}
 	shape := 4 + vpChoice(2)
+	if fields[f].Kind == "NLV" {
+		shape-- // natural-language lists with a repeated tag (3) and with two untagged texts (4)
+	}
 	x := vpNew(ti)
 	vpSetField(x, 0, 0, 'i')
 	vpSetField(x, f, shape, 'a')
